@@ -239,6 +239,56 @@ Proof.
   - constructor; [lra | constructor].
 Qed.
 
+(* Which predictor plays which role in a two-output head (EIpu: active + cost, CEI: active + constraint) does
+   not depend on the order in which the {output name: predictor} dict lists them: [head_roles] models
+   predictor_output_names (active first, the rest in dict order), _extract_active_and_secondary_metric and the
+   by-name construction of output_to_preds in compute_acq / compute_acq_with_gradient.  Hence every function
+   of the roles (head value, head gradients) is independent of the dict order. *)
+Theorem c09_roles_order_independent :
+  forall (Pred T : Type) (d d' : list (nat * Pred)) (active : nat) (H : Pred * Pred -> T),
+    length d = 2%nat -> NoDup (dkeys d) -> Permutation.Permutation d d' ->
+    head_roles d' active = head_roles d active /\
+    option_map H (head_roles d' active) = option_map H (head_roles d active).
+Proof.
+  intros Pred T d d' active H Hl Hn Hp.
+  assert (E : head_roles d' active = head_roles d active) by exact (roles_perm d d' active Hl Hn Hp).
+  split; [exact E | now rewrite E].
+Qed.
+Print Assumptions c09_roles_order_independent.
+
+Example c09_example_roles :
+  let d := [(5, 100); (7, 200)]%nat in    (* output 5 = cost model (predictor 100), output 7 = active (predictor 200) *)
+  head_roles d 7 = Some (200, 100)%nat /\ head_roles (rev d) 7 = Some (200, 100)%nat /\ NoDup (dkeys d).
+Proof. cbn. repeat split. repeat constructor; cbn; intuition discriminate. Qed.
+
+(* IndependentGPPerResourcePosteriorState.predict on a batch whose rows belong to different rung levels (sort by
+   level, predict group-wise, undo the sort with the inverse permutation) returns, row by row, exactly what the
+   level's posterior state predicts for that row -- for EVERY batch, every order of the levels in it, and every
+   permutation [ind] the (unstable) argsort may return; the per-level states are only assumed to predict
+   row-wise ([sp r l = map (p r) l]: marginal predictions of a row do not depend on the other rows). *)
+Theorem c09_batch_predict_rowwise :
+  forall (Row Out : Type) (sp : nat -> list Row -> list Out) (p : nat -> Row -> Out)
+         (ind : list nat) (rows : list (nat * Row)) (d0 : nat * Row) (o0 : Out),
+    (forall r l, sp r l = map (p r) l) -> length ind = length rows ->
+    Permutation.Permutation (seq 0 (length rows)) ind ->
+    indep_predict sp ind rows d0 o0 = map (fun rx => p (fst rx) (snd rx)) rows.
+Proof. intros Row Out. exact (@indep_predict_rowwise Row Out). Qed.
+Print Assumptions c09_batch_predict_rowwise.
+
+Example c09_example_batch_predict :
+  let rows := [(9, 10); (1, 11); (3, 12); (1, 13); (9, 14)]%nat in
+  let ind := [1; 3; 2; 0; 4]%nat in      (* a sorting permutation that is not its own inverse *)
+  Permutation.Permutation (seq 0 (length rows)) ind /\
+  indep_predict (fun r l => map (fun x => (r, x)) l) ind rows (0, 0)%nat (0, 0)%nat = rows.
+Proof.
+  split; [|reflexivity]. cbn.
+  apply Permutation.perm_trans with [1; 0; 2; 3; 4]%nat; [apply Permutation.perm_swap|].
+  apply Permutation.perm_skip.
+  apply Permutation.perm_trans with [2; 0; 3; 4]%nat; [apply Permutation.perm_swap|].
+  apply Permutation.perm_trans with [2; 3; 0; 4]%nat; [apply Permutation.perm_skip, Permutation.perm_swap|].
+  apply Permutation.perm_swap.
+Qed.
+
 (* ------------------------------------------------------------------------ *)
 (* hand-written backward passes of custom_op.py (MathComp, any field F with  *)
 (* 2 <> 0; no real-number axioms)                                            *)
